@@ -133,6 +133,15 @@ def run(R):
              z3.And(r1 - r2 <= 1, r2 - r1 <= 1), portfolio=("z3", "cvc5"),
              note="any two results satisfying the contract |r - sqrt(y)*65536| < 1 (proved for sqrt_abacus and sqrt_std_math "
                   "in C13) differ by at most one ulp")
+    # the contract itself on the part of sqrt's domain that C13's property does not state: every x on which sqrt_abacus returns
+    # a value (its own guard: x < 2^32, raw < 2^48) -- C08 quantifies over "every input on which a function is defined"
+    from . import C13
+    hs = R.harness("sq", C13.UNITS)
+    C13.stdm_contract(R, hs, (("/x<2^31", 0, 1 << 47, False), ("/2^31<=x<2^32", 1 << 47, 1 << 48, False)))
+    R.assume_note("the two square-root algorithms differ by at most one ulp on every x in [0, 2^32): sqrt_std_math meets the "
+                  "contract |r - sqrt(x)*65536| < 1 there (obligations stdm/*, real-arithmetic abstraction of the doubles), "
+                  "sqrt_abacus meets it by C13's loop invariant (proved for raw x < 2^48), and two values within the contract "
+                  "differ by at most one (obligation sqrt/algorithms-within-1ulp)")
     # ------------------------------------------------------------------ constant evaluation accepts what run time computes
     consteval_check(R)
 
